@@ -168,7 +168,12 @@ CHECKS = {
                 "all orderings), symmetric stores, diagonal handling and "
                 "element count are decided; the writer's key set, format "
                 "choice and row order agree with the reader/walker; the "
-                "tour parser's duplicate/size/zero-base checks exist.",
+                "tour parser's duplicate/size/zero-base checks exist; a "
+                "coordinate section becomes the symmetric matrix of the "
+                "selected function over all pairs (row validation, "
+                "dispatcher binding); the token/number readers hand on "
+                "every value exactly once; the header keys reach the "
+                "section readers in the parameters they name.",
         "design_ref": "DESIGN.md section 4, C18",
         "note": "Does NOT decide independence of line wrapping (runtime "
                 "tokenisation) nor that shipped tours have the documented "
